@@ -2,6 +2,7 @@ package checks
 
 import (
 	"bytes"
+	"encoding/hex"
 	"encoding/json"
 	"fmt"
 	"os"
@@ -46,6 +47,7 @@ type c13Case struct {
 	After   [][2]string `json:"after,omitempty"`   // body fields with larger tags
 	Mode    int         `json:"mode"`              // 0 no dictionary, 1 defining dictionary, 2 transport + defining dictionary
 	Rewrite bool        `json:"rewrite,omitempty"` // every group is set twice (first with one entry less), as an application building it up would
+	Pre     string      `json:"pre,omitempty"`     // hex of a message of another type (defining the same group tag with more members) parsed into the same Message object before
 	Wrapped bool        `json:"wrapped,omitempty"` // the reading template declares its nested groups through wrapper types (struct{ *RepeatingGroup }), the shape generated code uses
 	Shared  bool        `json:"shared,omitempty"`  // one template object tree for writing and reading: the nested group objects inside the template are the ones the application fills (first entry of each level)
 }
@@ -268,6 +270,19 @@ func c13EvalInner(cs c13Case) (string, string) {
 	}
 	parsed := quickfix.NewMessage()
 	var err error
+	if cs.Pre != "" {
+		// one Message object parses one stored message after the other when a resend is answered
+		if pre, e := hex.DecodeString(cs.Pre); e == nil {
+			switch cs.Mode {
+			case 1:
+				_ = quickfix.ParseMessageWithDataDictionary(parsed, bytes.NewBuffer(pre), nil, c13Dicts[cs.Dict])
+			case 2:
+				_ = quickfix.ParseMessageWithDataDictionary(parsed, bytes.NewBuffer(pre), c13Dicts["FIXT11"], c13Dicts[cs.Dict])
+			case 3:
+				_ = quickfix.ParseMessageWithDataDictionary(parsed, bytes.NewBuffer(pre), c13Dicts[cs.Dict], c13Dicts[cs.Dict])
+			}
+		}
+	}
 	switch cs.Mode {
 	case 0:
 		err = quickfix.ParseMessage(parsed, bytes.NewBuffer(wire))
@@ -463,6 +478,22 @@ func runC13(c *core.Ctx) {
 		if strings.HasPrefix(dn, "FIX50") {
 			modes = []int{0, 1, 2, 3}
 		}
+		// the widest definition of each top-level group tag among the messages of this dictionary
+		type wideDef struct {
+			msgType string
+			t       gTmpl
+			n       int
+		}
+		widest := map[int]wideDef{}
+		for _, m2 := range ws.Messages {
+			for _, x2 := range m2.Top {
+				if x2.IsGroup && len(x2.Group) > 0 {
+					if w, ok := widest[x2.Tag]; !ok || len(x2.Group) > w.n {
+						widest[x2.Tag] = wideDef{m2.MsgType, tmplFromMember(x2, 1), len(x2.Group)}
+					}
+				}
+			}
+		}
 		for mi, m := range ws.Messages {
 			if false && mi < 0 {
 				continue
@@ -487,6 +518,20 @@ func runC13(c *core.Ctx) {
 					}
 					if s > x.Tag && after == nil {
 						after = [][2]string{{strconv.Itoa(s), "a"}}
+					}
+				}
+				// the same Message object has parsed a message of another type before, whose definition of this
+				// group tag has more members
+				if w, ok := widest[x.Tag]; ok && w.msgType != m.MsgType && w.n > len(x.Group) {
+					pm := quickfix.NewMessage()
+					pm.Header.SetString(8, begin[dn]).SetString(35, w.msgType).SetString(49, "S").SetString(56, "T").SetInt(34, 2).SetString(52, "20240101-00:00:00")
+					pm.Body.SetGroup(w.t.write(fill(w.t, 1, 1, true, ""), false))
+					pre := hex.EncodeToString([]byte(pm.String()))
+					for _, mode := range modes {
+						if mode == 0 {
+							continue
+						}
+						jobs <- c13Case{Dict: dn, MsgType: m.MsgType, Begin: begin[dn], Group: t, Entries: fill(t, 2, 1, true, ""), Before: before, After: after, Mode: mode, Pre: pre}
 					}
 				}
 				for _, n := range []int{1, 2} {
